@@ -283,7 +283,8 @@ fn verif_native_assemble_encodes() {
                 for s2 in regs { cases.push((format!("{} {}, {}, {}", mn, rname(dr, false), rname(s1, true), rname(s2, false)), Some(op | dr << 9 | s1 << 6 | s2))); }
                 for v in vals { for hex in [false, true] {
                     let lit = if hex { format!("x{:X}", v as u32 & 0xFFFF) } else { format!("#{}", v) };
-                    let s = sign16(v);
+                    // a hex literal is a 16-bit pattern (xFFF0 is -16); a decimal is the number written: #65520 fits no signed field
+                    let s = if hex { sign16(v) } else { v };
                     let want = if (-16..=15).contains(&s) { Some(op | dr << 9 | s1 << 6 | 0x20 | (s as u16 & 0x1F)) } else { None };
                     if dr == s1 || v == -1 { cases.push((format!("{} {} {} {}", mn, rname(dr, true), rname(s1, false), lit), want)); }
                 } }
@@ -293,7 +294,7 @@ fn verif_native_assemble_encodes() {
         for (mn, op) in [("ldr", 0x6000u16), ("str", 0x7000), ("LDR", 0x6000), ("Str", 0x7000)] {
             for dr in regs { for base in regs { for v in vals { for hex in [false, true] {
                 let lit = if hex { format!("x{:X}", v as u32 & 0xFFFF) } else { format!("#{}", v) };
-                let s = sign16(v);
+                let s = if hex { sign16(v) } else { v };
                 let want = if (-32..=31).contains(&s) { Some(op | dr << 9 | base << 6 | (s as u16 & 0x3F)) } else { None };
                 cases.push((format!("{} {}, {}, {}", mn, rname(dr, false), rname(base, false), lit), want));
             } } } }
@@ -319,7 +320,7 @@ fn verif_native_assemble_encodes() {
             let half = 1i32 << (bits - 1);
             let mask = ((1u32 << bits) - 1) as u16;
             if *mn == "call" { continue; }   // the extension's `call` takes a label only
-            for v in [-half - 1, -half, -1, 0, 1, half - 1, half] {
+            for v in [-half - 1, -half, -1, 0, 1, half - 1, half, 65535, 65536 - half, 32768] {
                 cases.push((format!("{} #{}", mn, v), if v >= -half && v < half { Some(op | (v as u16 & mask)) } else { None }));
             }
         }
